@@ -270,7 +270,7 @@ func checkServerFields(c *Check) {
 	}
 	for _, sp := range []spec{
 		{crlRoot, map[string]bool{"re(p1.CRLDistributionPoints)": true, "old(re(p1.CRLDistributionPoints))": true, `""`: true, "zero": true}},
-		{ocspRoot, map[string]bool{"re(p1.OCSPServer)": true, `""`: true, "zero": true}},
+		{ocspRoot, map[string]bool{"re(p1.OCSPServer)": true, "old(re(p1.OCSPServer))": true, `""`: true, "zero": true}},
 	} {
 		pg := c.pgOf(sp.root)
 		if sp.root == ocspRoot {
@@ -339,9 +339,10 @@ func checkOCSPAggregate(c *Check) {
 		sr := structGet(t, "ServerResults")
 		res := structGet(t, "Result")
 		where := c.P.pos(s.Node.Pos)
-		if sr != nil && sr.Key() == slice {
+		// the accumulated list: the pre-sized slice filled by index, or a list grown by append
+		if sr != nil && (sr.Key() == slice || (sr.Op == "call" && sr.Name == "append" && len(sr.Args) == 2 && sr.Args[0].Op == "self")) {
 			nag++
-			want := slice + "[(len(" + slice + ") - 1)].Result"
+			want := sr.Key() + "[(len(" + sr.Key() + ") - 1)].Result"
 			c.add("O-C12.4", "OCSP aggregate verdict is the last server's", "the aggregated OCSP result's verdict is the verdict of the last server result of the same list", res != nil && res.Key() == want, where, "Result: "+res.Key())
 			continue
 		}
